@@ -138,7 +138,9 @@ Section Distribute.
   Definition sp_take_charge (sp : sp_pool) (value : Z) : option (Z * Z * Z) :=
     match chargef (ss_charge (sp_set sp)) value with
     | None => None
-    | Some charge =>
+    | Some charge0 =>
+        (* if serviceCharge > value { serviceCharge = value }: float64(value) can round up *)
+        let charge := if charge0 >? value then value else charge0 in
         match (if charge >? 0 then sp_add_coin (sp_reward sp) charge else Some (sp_reward sp)) with
         | None => None
         | Some sr => Some (sr, charge, sp_wrap (value - charge))
@@ -240,7 +242,12 @@ Section Distribute.
                     match sp_stake_sum chosen 0 with
                     | None => SpErr
                     | Some stake =>
-                        if stake =? 0 then SpOk (sp_upd sp (sp_pools sp) sr) (* remainder is not credited *)
+                        if stake =? 0 then
+                          (* nobody to share with: the remainder goes to the provider *)
+                          match sp_add_coin sr vl with
+                          | None => SpErr
+                          | Some sr2 => SpOk (sp_upd sp (sp_pools sp) sr2)
+                          end
                         else
                           match sp_share_loop vl stake vl chosen with
                           | None => SpErr
